@@ -63,7 +63,7 @@ check("C15", "exploration",
       "deterministic simulation of wake/poll orderings with lock-step reference scheduler model", "DESIGN.md section 4 C15")
 
 check("C12", "exploration",
-      "One invariant checker (the statement's invariants through the public JobList API, job-ID resolution - %%, %+, %-, %n and %name / %?name against a reference with not-found and ambiguous outcomes -, plus the transition rules documented on insert/remove/update_status/set_current_job), two engines: seeded event histories of up to 30 events applied to the real JobList - the legal oddities a kernel may deliver in any order, including pid reuse by a new job, duplicate and unexpected reports, reports for unknown pids - checked after every event; and whole-shell runs under set -m on the simulated OS where children stop themselves, are stopped, continued and killed by the script and by the simulator at seeded steps under seeded schedules, with a jobcheck probe evaluating the invariants on Env::jobs after every command, inside loops and functions and from the EXIT trap; the listing printed by the `jobs` built-in is checked as well (unique numbers, exactly one `+`, exactly one `-` for two or more jobs, stopped jobs take the marks first); a third of these runs are interactive shells, whose `[n] pid` announcements must name the number the job keeps in the table.",
+      "One invariant checker (the statement's invariants through the public JobList API, job-ID resolution - %%, %+, %-, %n and %name / %?name against a reference with not-found and ambiguous outcomes -, plus the transition rules documented on insert/remove/update_status/set_current_job), two engines: seeded event histories of up to 30 events applied to the real JobList - the legal oddities a kernel may deliver in any order, including pid reuse by a new job, duplicate and unexpected reports, reports for unknown pids - checked after every event; and whole-shell runs under set -m on the simulated OS where children stop themselves, are stopped, continued and killed by the script and by the simulator at seeded steps under seeded schedules, with a jobcheck probe evaluating the invariants on Env::jobs after every command, inside loops and functions and from the EXIT trap; the listing printed by the `jobs` built-in is checked as well (unique numbers, exactly one `+`, exactly one `-` for two or more jobs, stopped jobs take the marks first); a third of these runs are interactive shells, whose `[n] pid` announcements must name the number the job keeps in the table; `fg` of a suspended job that stops again must make it the current job; every job is a process group of its own from its first command on.",
       BASE_NOTE + " Histories are sampled with swarm-varied event mixes, not enumerated breadth-first (that would be model checking).",
       "deterministic simulation: seeded job-event histories + whole-shell job control with simulator-injected stop/continue/kill; invariant checker", "DESIGN.md section 4 C12")
 
